@@ -471,18 +471,10 @@ func checkHeaderVsData(p *Prog, r *Roles, a *allocInfo, res *Result) {
 					if s.Parent() != f || !isThis(s.Addr.(*ssa.FieldAddr).X) {
 						continue
 					}
-					kvAl, ok := p.resolveDeep(s.Val).(*ssa.Alloc)
-					if !ok {
+					// the key-value literal (possibly made by a local builder function)
+					d, ok := p.builtFieldValue(s.Val, kvRev)
+					if !ok || d == nil {
 						continue // nil / passed-through kv
-					}
-					var d ssa.Value
-					for _, ks := range p.fields().stores[kvRev] {
-						if ks.Addr.(*ssa.FieldAddr).X == ssa.Value(kvAl) {
-							d = ks.Val
-						}
-					}
-					if d == nil {
-						continue
 					}
 					n++
 					construct := fmt.Sprintf("%s: %s.Kv #%d", funcName(f), rt.Obj().Name(), n)
